@@ -38,7 +38,8 @@ def binary_search_lightness(
 
         # Determine search direction based on background brightness
         bg_l, _, _ = rgb_to_oklch_safe(bg_rgb)
-        search_up = bg_l < 0.5  # Lighten text on dark bg, darken on light bg
+        # Move away from the background; fall back to its brightness on a tie
+        search_up = (bg_l < 0.5) if l == bg_l else (l > bg_l)
 
         # Binary search bounds
         low = l if search_up else 0.0
